@@ -122,6 +122,7 @@ func acceptedConfigs(kind string) (small, big []PCfg) {
 	r := &cfgRun{prop: "-", st: &st, col: engine.NewCollector()}
 	for _, clause := range cfgClauses {
 		EnumConfigs(kind, clause, func(f Fields) {
+			engine.Progress.Add(1)
 			c := r.checkNewParser(f)
 			if c == nil {
 				return
